@@ -110,8 +110,8 @@ class Binning:
         self.binA = np.searchsorted(self.eA2, A2, side='right') - 1          # -1 below range, NA at/after last edge
         clsA = np.full(len(A2), -1)
         for e in range(self.NA + 1):
-            if self.eA2[e] == 0.0:
-                continue                                                       # an exact zero edge cannot round
+            # an exact zero first edge cannot round, but a uniform (lo, hi] convention legitimately excludes the mode that sits
+            # exactly on it: treated like every other on-edge shell (either side)
             near = np.abs(A2 - self.eA2[e]) <= ULP_K * sp32(self.eA2[e])
             assert (clsA[near] < 0).all(), 'edges closer than the ambiguity width'
             clsA[near] = e
